@@ -168,12 +168,15 @@ Print Assumptions C18_default_block_extent.
    (visible to every later operation), reset keeps the key set, iteration lists exactly the cells.
    [prop_block] is the same executable oracle the correspondence check applies to the real classes. *)
 Theorem C18_histories : forall ops b,
-  keys_ok b ->
+  keys_ok b -> dict_ok b ops = true ->
   prop_block (blk_default b) (blk_iter b) ops (run_block code b ops) = true.
 Proof. exact model_satisfies_oracle. Qed.
 Print Assumptions C18_histories.
 
+(* [dict_ok]: the dictionary form setValues(_, {k: v}) is modelled for sparse blocks only; list and
+   scalar writes, validate, read, reset and iteration are covered for both kinds of block *)
 Theorem C18_histories_sequential : forall ops s,
+  forallb (fun o => negb (is_dict_op o)) ops = true ->
   prop_block (sb_def s) (seq_iter s) ops (run_block code (BSeq s) ops) = true.
 Proof. exact model_satisfies_oracle_seq. Qed.
 Print Assumptions C18_histories_sequential.
